@@ -424,6 +424,10 @@ func (rw *rewriter) file(f *ast.File) bool {
 					rw.st.Ticker++
 					mark()
 				}
+			} else if rw.fs && (p == "os" || p == "io/ioutil") && name == "WriteFile" {
+				// not one effect: the file is truncated first and written then (a crash in between leaves it empty)
+				n.Fun = sel("WriteFile")
+				mark()
 			} else if p == "math/rand" {
 				// the process-global generator is seeded at random: its draws come from the decision stream instead
 				switch name {
